@@ -1,6 +1,7 @@
 import CkcVerif.Model.Card
 import CkcVerif.Model.SixSeven
 import CkcVerif.Model.HandRank
+import CkcVerif.Model.HandRankOps
 import CkcVerif.Model.BitCard
 import CkcVerif.Model.Two
 import CkcVerif.Model.Parse
@@ -228,7 +229,7 @@ def answer (cmd : String) (args : List Nat) : String :=
     let x := HandRank.ofValue a
     let y := HandRank.ofValue b
     joinNats [ordCode (x.cmp y), ordCode (x.cmp y), boolNat (x.lt y), boolNat (x.le y), boolNat (x.gt y),
-      boolNat (x.ge y), boolNat (x == y)]
+      boolNat (x.ge y), boolNat (x == y), (x.max y).value, (x.min y).value, (x.max y).value, (x.min y).value]
   | "bc", ws =>
     if 2 ≤ ws.length ∧ ws.length ≤ 7 then toString (bcFromHand ws) else "bad-request"
   | "bcops", [x, y] =>
